@@ -7,6 +7,7 @@ import (
 	"sort"
 	"strconv"
 	"strings"
+	"unicode"
 
 	distiller "github.com/markusmobius/go-domdistiller"
 	"golang.org/x/net/html"
@@ -411,7 +412,7 @@ func project(res *distiller.Result, err error, src *Src, chains, urls *interner)
 	}
 	p := &projector{obs: o, src: src, chains: chains, urls: urls}
 	o.Txt = p.appendWords(o.Txt, res.Text)
-	o.TxtWC = len(strings.Fields(res.Text))
+	o.TxtWC = countWords(res.Text)
 	o.WC = res.WordCount
 	o.NTitle = len(res.Title)
 	p.walk(res.Node, "", false, false, false)
@@ -422,4 +423,16 @@ func project(res *distiller.Result, err error, src *Src, chains, urls *interner)
 	}
 	o.Dig = digestResult(res)
 	return o
+}
+
+// countWords: the words of a text - its white-space separated pieces that hold at least one letter or digit
+// (a dash or a colon standing alone is punctuation, not a word).
+func countWords(s string) int {
+	n := 0
+	for _, f := range strings.Fields(s) {
+		if strings.IndexFunc(f, func(r rune) bool { return unicode.IsLetter(r) || unicode.IsDigit(r) }) >= 0 {
+			n++
+		}
+	}
+	return n
 }
